@@ -586,7 +586,7 @@ def run(idx, rep, tier):
     # semantics (some positive pattern matches, no negated one does - a list
     # of negations alone matches nothing) and the wildcard rules are C17.R1
     # and the witnesses of C17.R5
-    from .c17 import r1 as c17r1, wildcard_witnesses
+    from .c17 import r1 as c17r1, wildcard_witnesses, build_pattern_witnesses
     rep.rule('C18.R7', 'pattern lists of Host / Match lines (= C17.R1 and the '
              'wildcard witnesses of C17.R5): a block applies iff some '
              'positive pattern matches the whole name and no negated one '
@@ -594,5 +594,6 @@ def run(idx, rep, tier):
     before = len(rep.obligations)
     c17r1(k)
     wildcard_witnesses(k, 'C18.R7')
+    build_pattern_witnesses(k, 'C18.R7')
     for o in rep.obligations[before:]:
         o.rule = 'C18.R7'
